@@ -101,10 +101,10 @@ impl Property for C13 {
         }
     }
     fn rule_text(&self) -> &'static str {
-        "cases: pairs of values from a small universe (small/big ints, binaries as constant vs heap rope vs slice, named/unnamed/labelled tuples, nested, Ok) where one side is built locally and the other arrives as a process result, in a message to a comparer that captured the first, as a second spawn capture, from an in-memory module, or is built on a later REPL line after a same-shape tuple with different field types was merged; both orders of each comparison plus the reflexive one; refs minted by 1-4 processes (and the REPL process, across lines) returned and compared pairwise. The verdict vector must equal the model's structural equality, be symmetric and reflexive, and all minted refs must be pairwise distinct, under every sampled placement (1-6 workers) and schedule. Non-trivial: >=2 workers, >=1 out-of-order handled message, conclusive. Distinct = distinct (scenario shape, interleaving hash)."
+        "cases: pairs of values from a small universe (small/big ints, binaries as constant vs heap rope vs slice, named/unnamed/labelled tuples, nested, Ok) where one side is built locally and the other arrives as a process result, in a message to a comparer that captured the first, as a second spawn capture, from an in-memory module, or is built on a later REPL line after a same-shape tuple with different field types was merged; both orders of each comparison plus the reflexive one; refs minted by 1-4 processes (and the REPL process, across lines) returned and compared pairwise; handles of 1-3 processes obtained by the spawner, by `&.` in the body and by `&.` one and two calls deep, compared by the spawner and by a comparer process that captured them. The verdict vector must equal the model's structural equality, be symmetric and reflexive, and all minted refs must be pairwise distinct, under every sampled placement (1-6 workers) and schedule. Non-trivial: >=2 workers, >=1 out-of-order handled message, conclusive. Distinct = distinct (scenario shape, interleaving hash)."
     }
     fn required_probes(&self) -> Vec<&'static str> {
-        vec!["pair_via_process_result", "pair_via_message", "pair_via_spawn_capture", "pair_via_module", "pair_across_repl_lines", "refs_from_several_processes", "equal_pair_checked", "unequal_pair_checked", "mass_mint_over_2_16_refs_on_one_worker"]
+        vec!["pair_via_process_result", "pair_via_message", "pair_via_spawn_capture", "pair_via_module", "pair_across_repl_lines", "refs_from_several_processes", "equal_pair_checked", "unequal_pair_checked", "mass_mint_over_2_16_refs_on_one_worker", "process_handles_from_several_call_depths"]
     }
     fn generate(&self, rng: &mut Rng, _tier: Tier) -> Scenario {
         let mut h = crate::rng::Fnv::default();
@@ -250,7 +250,56 @@ impl Property for C13 {
             ref_expected.push("Ok".to_string());
             cur.push(format!("rvs = [{}]", rv.join(", ")));
         }
+        // process handles: the handle the spawner got, `&.` in the body, `&.` one and two calls deep;
+        // compared by the spawner and by a comparer process that captured them
+        let nhp = if rng.chance(1, 2) { 1 + rng.usize(3) } else { 0 };
+        h.u64(nhp as u64);
+        let mut hv_expected: Vec<String> = Vec::new();
+        if nhp > 0 {
+            lines[0].push("me = #{ &. }".to_string());
+            lines[0].push("deeper = #{ me }".to_string());
+            let cur = lines.last_mut().unwrap();
+            let mut handles: Vec<(String, usize)> = Vec::new(); // (variable, process index)
+            for i in 0..nhp {
+                cur.push(format!("hp{i} = @{{ a = &., b = me, c = deeper, [[&a =&b], [&b =&c], [&c =&a], &a, &b, &c] }}"));
+            }
+            for i in 0..nhp {
+                cur.push(format!("[hi{i}, hj{i}, hk{i}, ha{i}, hb{i}, hc{i}] = !hp{i}"));
+                for v in ["hp", "ha", "hb", "hc"] {
+                    handles.push((format!("{v}{i}"), i));
+                }
+                hv_expected.push("[[Ok], [Ok], [Ok]]".to_string());
+            }
+            let mut names = Vec::new();
+            let mut inner = Vec::new();
+            let mut inner_exp = Vec::new();
+            for c in 0..(3 + rng.usize(6)) {
+                let (x, xi) = handles[rng.usize(handles.len())].clone();
+                let (y, yi) = handles[rng.usize(handles.len())].clone();
+                let verdict = if xi == yi { "[Ok]" } else { "[[]]" };
+                if rng.chance(1, 3) {
+                    inner.push(format!("[&{x} =&{y}]"));
+                    inner_exp.push(verdict.to_string());
+                } else {
+                    cur.push(format!("hv{c} = [&{x} =&{y}]"));
+                    names.push(format!("hv{c}"));
+                    hv_expected.push(verdict.to_string());
+                }
+            }
+            if !inner.is_empty() {
+                cur.push(format!("hcmp = @{{ [{}] }}", inner.join(", ")));
+                cur.push("hvi = !hcmp".to_string());
+                names.push("hvi".to_string());
+                hv_expected.push(format!("[{}]", inner_exp.join(", ")));
+            }
+            let his: Vec<String> = (0..nhp).map(|i| format!("[hi{i}, hj{i}, hk{i}]")).collect();
+            cur.push(format!("hvs = [{}, {}]", his.join(", "), names.join(", ")));
+        }
         let mut fin: Vec<String> = (0..npairs).map(|k| format!("e{k}")).collect();
+        if nhp > 0 {
+            fin.push("hvs".into());
+            expected.push(format!("[{}]", hv_expected.join(", ")));
+        }
         fin.push("rvs".into());
         fin.push(format!("[{}]", ref_vars.join(", ")));
         lines.last_mut().unwrap().push(format!("[{}]", fin.join(", ")));
@@ -279,7 +328,7 @@ impl Property for C13 {
             timing: false,
             io: false,
             fixed_faults: Default::default(),
-            expect: serde_json::json!({ "value": expected_s, "transports": transports, "minters": nmint, "equal": eq_n, "unequal": ne_n }),
+            expect: serde_json::json!({ "value": expected_s, "transports": transports, "minters": nmint, "equal": eq_n, "unequal": ne_n, "handles": nhp }),
             shape: h.0,
             est_len: 100,
             min_quantum: 0,
@@ -295,6 +344,9 @@ impl Property for C13 {
         }
         if scn.expect["minters"].as_u64().unwrap_or(0) >= 2 {
             m.insert("refs_from_several_processes".into(), 1);
+        }
+        if scn.expect["handles"].as_u64().unwrap_or(0) >= 1 {
+            m.insert("process_handles_from_several_call_depths".into(), 1);
         }
         m.insert("equal_pair_checked".into(), scn.expect["equal"].as_u64().unwrap_or(0));
         m.insert("unequal_pair_checked".into(), scn.expect["unequal"].as_u64().unwrap_or(0));
